@@ -231,7 +231,9 @@ def r4_ood_consistency(ctx):
            if ok else how, f, hit[1]["sp"]["at"])
     y = hit[3]
     folds = closure_calls(ctx.p, y["closures"], ("winter_math::field::traits::FieldElement::exp_vartime",))
-    z_in_fold = ev["draw_z"][0] in y["calls"] and bool(folds) and "current_row" in names_in(f, y)
+    # loop form (possibly in a spliced private helper): exp_vartime called directly in the slice
+    direct = [b for b in y["calls"] if (callee_of(f.term(b)) or {}).get("def") == "winter_math::field::traits::FieldElement::exp_vartime"]
+    z_in_fold = ev["draw_z"][0] in y["calls"] and (bool(folds) or bool(direct)) and "current_row" in names_in(f, y)
     ctx.ob("R4", "rhs-is-H(z)-from-proof-frame", z_in_fold,
            "rhs = ood_constraint_frame.current_row().fold(|acc,(i,v)| acc + z^(i*trace_len) * v) with the same z"
            if z_in_fold else "the right-hand side is not the z-power combination of the proof's constraint frame row", f, hit[1]["sp"]["at"])
